@@ -736,9 +736,12 @@ class SqlalchemyRender:
 
             return sql, params
 
-        except (SQLAlchemyError, NotImplementedError) as e:
+        except Exception as e:
             if not with_failback:
-                raise e
+                if isinstance(e, (SQLAlchemyError, NotImplementedError)):
+                    raise e
+                # unsupported shape of the query
+                raise NotImplementedError(f'Unable to render: {e!r}') from e
 
             sql_query = str(ast_query)
             if self.dialect.name == 'postgresql':
